@@ -112,10 +112,16 @@ def writeTypeAlias (xmlName rustName : String) (t : FType) (tns : Option Ns) (r 
 def aliasIsNoop (t : FType) (rustName : String) : Bool :=
   ((t.render.splitOn ":").getLast?.getD "") == rustName
 
+/-- the type is a named type of a module other than `ownModule` -/
+def inOtherModule (t : FType) (ownModule : Option String) : Bool :=
+  match t with
+  | .other _ (some m) => some m != ownModule
+  | _ => false
+
 /-- `write_simple_type` -/
 def writeSimpleType (p : SProps) : Chunks :=
   let rustName := xmlNameToRustName p.xmlName
-  if aliasIsNoop p.rustType rustName then []
+  if aliasIsNoop p.rustType rustName && !inOtherModule p.rustType (p.tns.map (·.rustModName)) then []
   else writeCommentLines p.comment ++ writeTypeAlias p.xmlName rustName p.rustType p.tns p.restrictions
 
 /-- the namespaces a struct declares: its own, then those of its element members, by first use -/
@@ -149,6 +155,13 @@ def writeComplexType (p : CProps) : Chunks :=
 def writeNode (n : RNode) : Chunks :=
   match n.rtype with
   | .ignore => []
+  | .element { xmlName := xn, etype := .rustType (.other name (some m)) } =>
+    -- node.rs: the alias to a same-named type of another namespace's module is emitted
+    let rustName := xmlNameToRustName xn
+    if name == rustName && some m != n.inNs.map (·.rustModName) then
+      ["pub type " ++ rustName ++ " = " ++ (FType.other name (some m)).render ++ ";\n"]
+    else if aliasIsNoop (.other name (some m)) rustName then []
+    else ["pub type " ++ rustName ++ " = " ++ (FType.other name (some m)).render ++ ";\n"]
   | .complex p => writeComplexType p
   | .simple p => writeSimpleType p
   | .element p =>
